@@ -47,12 +47,20 @@ structure SstCfg where
       unconditional and `block.verifyCheckSum` is nothing but the checksum comparison
       (false = verification is skipped for blocks remembered as already verified) -/
   verifyEveryLoad : Bool
+  /-- `tableIterator.seekHelper` always fetches the block and resets the block iterator with it
+      (false = it re-uses the block the block iterator already names, without looking at whether
+      its views are still loaded) -/
+  seekReloads : Bool
+  /-- `tableIterator.Next`, on leaving a block, drops `bi.data` *and* `bi.entryOffsets`
+      (as-is: only `bi.data`) -/
+  nextUnloadsBoth : Bool
   deriving DecidableEq, Repr
 
 def SstCfg.good : SstCfg :=
   { splitOp := .gt, seekFallsThrough := true, tblSeekOp := .gt, blkFwdOp := .ge, blkRevOp := .gt,
     searchVsOp := .lt, bloomSameProjection := true, verifyBeforeCache := true,
-    chkLenGuardReadPos := true, verifyEveryLoad := true }
+    chkLenGuardReadPos := true, verifyEveryLoad := true,
+    seekReloads := true, nextUnloadsBoth := false }
 
 /-- the decisions the lookup/seek/iteration theorems depend on, except the forward-seek
 continuation (block-cache order and trailer guard are separate concerns) -/
@@ -266,6 +274,100 @@ def loadSeqLive (c : SstCfg) : List Nat → List ((Nat → Block × Bool) × Nat
   | _, [] => []
   | verified, (disk, i) :: rest =>
     (loadUncached c disk verified i).1 :: loadSeqLive c (loadUncached c disk verified i).2 rest
+
+/-! ### one long-lived table iterator as a cursor state machine
+
+`rem` = the entries from the current one on, in iteration direction (`[]` = `!Valid()`): the
+current block index and in-block position are the number of whole blocks / entries consumed.
+`stale = some b`: the iterator ran off the table with `Next`; the block iterator still *names*
+block `b` (`bi.block`, `bi.blockID`) but its views were dropped (`Next` unloads on leaving a
+block and there was no further block to load).  `dead`: the call panicked. -/
+
+structure Cur where
+  rem : List SEntry := []
+  stale : Option Nat := none
+  dead : Bool := false
+  deriving DecidableEq, Repr
+
+inductive COp where
+  | rewind
+  | seek (key : Bytes)
+  | next
+  deriving DecidableEq, Repr
+
+/-- first block whose base key satisfies `tblSeekOp`, minus one (`none`: there is none before) -/
+def startBlockIdx (c : SstCfg) (key : Bytes) (blocks : List Block) : Option Nat :=
+  let idx := (blocks.takeWhile (fun b => !(c.tblSeekOp.eval (klt (baseKey b) key) (keq (baseKey b) key)))).length
+  if idx = 0 then none else some (idx - 1)
+
+/-- `seekHelper(j)` when the reuse shortcut hits a block whose views were dropped: the in-block
+search runs on an empty offset list (`none` = it panics on the nil data instead) -/
+def staleHelper (c : SstCfg) : Option (List SEntry) := if c.nextUnloadsBoth then some [] else none
+
+/-- `Seek` with the reuse shortcut (only reached when `seekReloads = false`) -/
+def curSeekReuse (c : SstCfg) (blocks : List Block) (asc : Bool) (cur : Cur) (key : Bytes) : Cur :=
+  let n := blocks.length
+  let isStale (j : Nat) : Bool := cur.stale == some j
+  if asc then
+    let j := (startBlockIdx c key blocks).getD 0
+    let r1 : Option (List SEntry) :=
+      if isStale j then staleHelper c else some ((blocks.getD j []).dropWhile (fun e => !entOp c.blkFwdOp key e))
+    match r1 with
+    | none => { cur with rem := [], dead := true }
+    | some r =>
+      if !r.isEmpty then { rem := r ++ (blocks.drop (j + 1)).flatten, stale := if isStale j then cur.stale else none }
+      else if c.seekFallsThrough && (startBlockIdx c key blocks).isSome && j + 1 < n then
+        let r2 : Option (List SEntry) :=
+          if isStale (j + 1) then staleHelper c else some (blocks.getD (j + 1) [])
+        match r2 with
+        | none => { cur with rem := [], dead := true }
+        | some r' => { rem := r' ++ (if r'.isEmpty then [] else (blocks.drop (j + 2)).flatten),
+                       stale := if isStale (j + 1) then cur.stale else none }
+      else { rem := [], stale := if isStale j then cur.stale else none }
+  else
+    match startBlockIdx c key blocks with
+    | none => { cur with rem := [] }
+    | some j =>
+      if isStale j then
+        match staleHelper c with
+        | none => { cur with rem := [], dead := true }
+        | some _ => { cur with rem := [] }
+      else
+        { rem := inBlockRev c key (blocks.getD j []) ((blocks.take j).flatten.reverse), stale := none }
+
+/-- one call on the cursor; `next` is only issued on a valid cursor -/
+def curStep (c : SstCfg) (blocks : List Block) (asc : Bool) (cur : Cur) : COp → Cur
+  | .rewind => { rem := if asc then blocks.flatten else blocks.flatten.reverse, stale := none }
+  | .next =>
+    match cur.rem with
+    | [] => cur
+    | [_] => { rem := [], stale := some (if asc then blocks.length - 1 else 0) }
+    | _ :: r => { rem := r, stale := none }
+  | .seek key =>
+    if c.seekReloads then
+      if asc then { rem := seekFwd c key blocks, stale := none }
+      else
+        match blocks with
+        | [] => { rem := [], stale := none }
+        | b :: _ =>
+          -- idx == 0: `it.err = io.EOF` and nothing else is touched
+          if c.tblSeekOp.eval (klt (baseKey b) key) (keq (baseKey b) key) then { cur with rem := [] }
+          else { rem := seekRev c key blocks, stale := none }
+    else curSeekReuse c blocks asc cur key
+
+def curRun (c : SstCfg) (blocks : List Block) (asc : Bool) (ops : List COp) : Cur :=
+  ops.foldl (curStep c blocks asc) {}
+
+/-- the specification cursor over the stored entries -/
+def specStep (es : List SEntry) (asc : Bool) (rem : List SEntry) : COp → List SEntry
+  | .rewind => if asc then es else es.reverse
+  | .next => rem.tail
+  | .seek key =>
+    if asc then es.dropWhile (fun e => klt e.1 key)
+    else (es.takeWhile (fun e => !klt key e.1)).reverse
+
+def specRun (es : List SEntry) (asc : Bool) (ops : List COp) : List SEntry :=
+  ops.foldl (specStep es asc) []
 
 /-- full iteration -/
 def scan (t : Table) (asc : Bool) : List SEntry :=
